@@ -298,6 +298,18 @@ def _texpr(n, env):
             x, tx = _texpr(n.args[0], env)
             need(tx in ('string', 'list string', 'list Z'), 'kernel: len of %s' % tx)
             return ('(Z.of_nat (%s %s))' % ('String.length' if tx == 'string' else 'List.length', x), 'Z')
+    if isinstance(n, ast.Tuple) and n.elts:
+        parts = [_texpr(e, env) for e in n.elts]
+        return ('(' + ', '.join(e for e, _ in parts) + ')', ' * '.join(t for _, t in parts))
+    if isinstance(n, ast.Subscript) and isinstance(n.slice, ast.Slice):
+        x, tx = _texpr(n.value, env)
+        sl = n.slice
+        need(tx == 'string' and sl.step is None, 'kernel: slice of a %s' % tx)
+        if sl.lower is None and ast.unparse(sl.upper) == '-1':
+            return ('(drop_last %s)' % x, 'string')          # s[:-1]
+        if sl.upper is None and isinstance(sl.lower, ast.Constant) and isinstance(sl.lower.value, int) and sl.lower.value >= 0:
+            return ('(str_skip %d %s)' % (sl.lower.value, x), 'string')   # s[k:]
+        need(False, 'kernel: slice %s' % key[:60])
     if isinstance(n, ast.Subscript) and not isinstance(n.slice, ast.Slice):
         (l, tl), (i, ti) = _texpr(n.value, env), _texpr(n.slice, env)
         need(tl == 'list Z' and ti == 'Z', 'kernel: subscript of %s by %s' % (tl, ti))
@@ -902,6 +914,15 @@ def main(out_path):
         need(len(asg) == 1 and ast.unparse(asg[0]) == 'passed, error_struct, error_str = aconf.policy.evaluate(banner, kex)', 'evaluate_policy(): `passed` comes from Policy.evaluate and is not reassigned')
     soft('policy verdict to exit status (audit / evaluate_policy)', ['C02'], ex_policy_exit)
 
+    globals()['LAST_SOFT_FAILURES'] = soft_failures
+
+    def ex_ssh_version():
+        t_alg = ast.parse(src('algorithm.py'))
+        gv = func_node(t_alg, 'Algorithm.get_ssh_version')
+        need([a.arg for a in gv.args.args] == ['version_desc'], 'get_ssh_version signature')
+        inputs = {'Product.' + k: ('product_' + k, 'string') for k in ('OpenSSH', 'DropbearSSH', 'LibSSH')}
+        w(kernel('src_get_ssh_version', [('version_desc', 'string')], gv.body, inputs=inputs))
+    soft('Algorithm.get_ssh_version', ['C03', 'C13', 'C14'], ex_ssh_version)
     globals()['LAST_SOFT_FAILURES'] = soft_failures
 
     # T1d: message codecs (gen/Codecs.v, beside Tables.v; it depends on model/Wire.v, which depends on Tables.v)
